@@ -1,21 +1,642 @@
+//! simctl: batch driver for the deterministic simulation checks.
+//!   simctl check <PROP> [--tier quick|thorough] [--runs N] [--jobs J]
+//!   simctl replay <file>
+//!   simctl determinism <PROP> [--runs N]
+//!   simctl nsrun <cmd..>            (debug: run a command inside a worker namespace)
+//!   simctl worker ...               (internal)
+//! Exit codes: 0 property held on everything explored (KNOWN-FINDING lines possible);
+//!             1 violation (a line `VIOLATION property=<id> replay=<path>` is printed);
+//!             2 harness error (never reported as a violation).
+
 mod ns;
-use std::process::Command;
+mod table;
+
+use serde_json::{json, Value};
+use std::collections::{BTreeMap, BTreeSet};
+use std::io::{BufRead, BufReader, Write};
+use std::process::{Command, Stdio};
+use std::time::{Duration, Instant};
+
+const AGENT_SIM: &str = "/verif/.build/target/release/agent-sim";
+const DEFAULT_SEED: u64 = 20260926;
+
+fn mix(seed: u64, i: u64) -> u64 {
+    let mut x = seed ^ i.wrapping_mul(0xD6E8FEB86659FD93);
+    x = x.wrapping_add(0x9E3779B97F4A7C15);
+    let mut z = x;
+    z = (z ^ (z >> 30)).wrapping_mul(0xBF58476D1CE4E5B9);
+    z = (z ^ (z >> 27)).wrapping_mul(0x94D049BB133111EB);
+    (z ^ (z >> 31)) >> 1 // keep it in i64 range for JSON consumers
+}
+
+fn arg_val(args: &[String], name: &str) -> Option<String> {
+    args.iter().position(|a| a == name).and_then(|i| args.get(i + 1)).cloned()
+}
+
+fn harness_error(msg: &str) -> ! {
+    println!("HARNESS-ERROR {}", msg);
+    eprintln!("HARNESS-ERROR {}", msg);
+    std::process::exit(2);
+}
+
+/// run one child inside the (already entered) namespace
+fn run_child(bin: &str, scenario: &str, seed: u64, tier: &str, plan: Option<&Value>, extra_env: &[(String, String)]) -> Result<Value, String> {
+    ns::wipe();
+    let scratch = format!("{}/scratch", ns::NSROOT);
+    let out = format!("{}/out.json", scratch);
+    let _ = std::fs::remove_file(&out);
+    let mut cmd = Command::new(bin);
+    cmd.env_clear()
+        .env("PATH", "/nonexistent")
+        .env("VERIF_SEED", seed.to_string())
+        .env("VERIF_SCENARIO", scenario)
+        .env("VERIF_TIER", tier)
+        .env("VERIF_OUT", &out)
+        .env("RUST_BACKTRACE", "0")
+        .stdin(Stdio::null())
+        .stdout(Stdio::null())
+        .stderr(Stdio::piped());
+    for (k, v) in extra_env {
+        cmd.env(k, v);
+    }
+    if let Some(p) = plan {
+        let pf = format!("{}/plan.json", scratch);
+        std::fs::write(&pf, serde_json::to_vec(p).unwrap()).map_err(|e| e.to_string())?;
+        cmd.env("VERIF_PLAN", &pf);
+    }
+    let mut child = cmd.spawn().map_err(|e| format!("spawn {}: {}", bin, e))?;
+    let t0 = Instant::now();
+    let cap = Duration::from_secs(std::env::var("VERIF_WALL_CAP_S").ok().and_then(|v| v.parse().ok()).unwrap_or(180));
+    loop {
+        match child.try_wait() {
+            Ok(Some(st)) => {
+                if !st.success() {
+                    let mut err = String::new();
+                    if let Some(mut e) = child.stderr.take() {
+                        use std::io::Read;
+                        let _ = e.read_to_string(&mut err);
+                    }
+                    return Err(format!("child exited with {:?}: {}", st.code(), err.chars().rev().take(600).collect::<String>().chars().rev().collect::<String>()));
+                }
+                break;
+            }
+            Ok(None) => {
+                if t0.elapsed() > cap {
+                    let _ = child.kill();
+                    let _ = child.wait();
+                    return Err(format!("wall cap of {} s hit without a verdict", cap.as_secs()));
+                }
+                std::thread::sleep(Duration::from_millis(1));
+            }
+            Err(e) => return Err(e.to_string()),
+        }
+    }
+    let data = std::fs::read(&out).map_err(|e| format!("no result file: {}", e))?;
+    serde_json::from_slice(&data).map_err(|e| format!("bad result json: {}", e))
+}
+
+fn disable_aslr() {
+    unsafe {
+        let cur = libc::personality(0xffffffff);
+        if cur != -1 {
+            libc::personality((cur as libc::c_ulong) | 0x0040000); // ADDR_NO_RANDOMIZE
+        }
+    }
+}
+
+/// internal: `simctl worker <w> <jobs> <runs> <seed> <tier> <prop> <keep_full>`: prints one JSON line per run
+fn worker_main(args: &[String]) {
+    let w: u64 = args[2].parse().unwrap();
+    let jobs: u64 = args[3].parse().unwrap();
+    let runs: u64 = args[4].parse().unwrap();
+    let base_seed: u64 = args[5].parse().unwrap();
+    let tier = args[6].clone();
+    let prop = args[7].clone();
+    let keep_full: u64 = args[8].parse().unwrap();
+    let twice = args.get(9).map(|s| s == "twice").unwrap_or(false);
+    if let Err(e) = ns::enter() {
+        println!("{}", json!({"harness_error": format!("namespace: {}", e)}));
+        return;
+    }
+    disable_aslr();
+    let spec = table::spec(&prop);
+    let stdout = std::io::stdout();
+    let mut i = w;
+    while i < runs {
+        let seed = mix(base_seed, i);
+        let scen = table::scenario_for(&spec, i);
+        let reps = if twice { 2 } else { 1 };
+        let mut line = json!({});
+        let mut digests = Vec::new();
+        for _ in 0..reps {
+            match run_child(scen.bin, &scen.name, seed, &tier, None, &[]) {
+                Ok(mut r) => {
+                    digests.push(format!("{}/{}", r["digest"].as_str().unwrap_or(""), r["events"]));
+                    let viol = r["verdict"] != "ok";
+                    if viol || !r["panics"].as_array().map(|a| a.is_empty()).unwrap_or(true) {
+                        // keep the complete result for the minimiser / replay file
+                        let _ = std::fs::create_dir_all("/verif/replays/tmp");
+                        let path = format!("/verif/replays/tmp/{}-{}.json", prop, seed);
+                        let _ = std::fs::write(&path, serde_json::to_vec(&r).unwrap());
+                        r["full_path"] = json!(path);
+                    }
+                    if i >= keep_full && !viol {
+                        if let Some(o) = r.as_object_mut() {
+                            o.remove("plan");
+                            o.remove("tail");
+                            o.remove("samples");
+                            o.remove("all_events");
+                        }
+                    } else if let Some(o) = r.as_object_mut() {
+                        o.remove("all_events");
+                    }
+                    r["i"] = json!(i);
+                    r["scenario"] = json!(scen.name);
+                    line = r;
+                }
+                Err(e) => {
+                    line = json!({"i": i, "seed": seed, "scenario": scen.name, "harness_error": e});
+                    break;
+                }
+            }
+        }
+        if twice {
+            line["digests"] = json!(digests);
+        }
+        let mut lock = stdout.lock();
+        let _ = writeln!(lock, "{}", line);
+        let _ = lock.flush();
+        i += jobs;
+    }
+}
+
+struct Batch {
+    results: Vec<Value>,
+    wall_s: f64,
+}
+
+fn run_batch(prop: &str, tier: &str, runs: u64, jobs: u64, base_seed: u64, keep_full: u64, twice: bool) -> Batch {
+    let exe = std::env::current_exe().unwrap();
+    let t0 = Instant::now();
+    let mut children = Vec::new();
+    for w in 0..jobs.min(runs.max(1)) {
+        let mut c = Command::new(&exe);
+        c.args(["worker", &w.to_string(), &jobs.to_string(), &runs.to_string(), &base_seed.to_string(), tier, prop, &keep_full.to_string(), if twice { "twice" } else { "once" }])
+            .stdin(Stdio::null())
+            .stdout(Stdio::piped())
+            .stderr(Stdio::inherit());
+        match c.spawn() {
+            Ok(ch) => children.push(ch),
+            Err(e) => harness_error(&format!("cannot start worker: {}", e)),
+        }
+    }
+    let (tx, rx) = std::sync::mpsc::channel::<Value>();
+    let mut threads = Vec::new();
+    for ch in children.iter_mut() {
+        let out = ch.stdout.take().unwrap();
+        let tx = tx.clone();
+        threads.push(std::thread::spawn(move || {
+            for l in BufReader::new(out).lines().map_while(Result::ok) {
+                if let Ok(v) = serde_json::from_str::<Value>(&l) {
+                    let _ = tx.send(v);
+                }
+            }
+        }));
+    }
+    drop(tx);
+    let mut results: Vec<Value> = rx.iter().collect();
+    for t in threads {
+        let _ = t.join();
+    }
+    for mut ch in children {
+        let _ = ch.wait();
+    }
+    results.sort_by_key(|r| r["i"].as_u64().unwrap_or(u64::MAX));
+    Batch { results, wall_s: t0.elapsed().as_secs_f64() }
+}
+
+fn known_findings() -> Vec<Value> {
+    match std::fs::read("/verif/known_findings.json") {
+        Ok(d) => serde_json::from_slice::<Value>(&d).ok().and_then(|v| v["findings"].as_array().cloned()).unwrap_or_default(),
+        Err(_) => Vec::new(),
+    }
+}
+fn matches_known(k: &Value, v: &Value) -> bool {
+    if k["status"].as_str() == Some("fixed") {
+        return false; // a fixed entry suppresses nothing
+    }
+    k["property"] == v["property"] && v["class"].as_str().map(|c| c.contains(k["class_contains"].as_str().unwrap_or("\u{0}"))).unwrap_or(false)
+        && k["detail_contains"].as_str().map(|d| v["detail"].as_str().unwrap_or("").contains(d)).unwrap_or(true)
+}
+
+fn has_violation(res: &Value, prop: &str, class: &str) -> bool {
+    res["violations"].as_array().map(|a| a.iter().any(|v| v["property"] == prop && v["class"] == class)).unwrap_or(false)
+}
+
+/// delta-debugging over the explicit plan: drop steps / connections / requests / perturbation while the
+/// same violation class reproduces. Runs inside the caller's namespace.
+fn minimise(bin: &str, scenario: &str, seed: u64, tier: &str, mut plan: Value, prop: &str, class: &str, budget: &mut u32) -> Value {
+    let mut try_plan = |cand: &Value, budget: &mut u32| -> bool {
+        if *budget == 0 {
+            return false;
+        }
+        *budget -= 1;
+        match run_child(bin, scenario, seed, tier, Some(cand), &[]) {
+            Ok(r) => has_violation(&r, prop, class),
+            Err(_) => false,
+        }
+    };
+    // 1. lighter scheduling / network profile
+    for key in ["sched.delay_ppm", "sched.hop_ppm", "sched.victim_a", "sched.victim_b", "net.frag_ppm", "net.short_write_ppm", "net.short_read_ppm", "net.pending_ppm", "net.lat_max_ms", "net.connect_lat_max_ms"] {
+        if plan["knobs"].get(key).is_some() {
+            let mut c = plan.clone();
+            c["knobs"].as_object_mut().unwrap().remove(key);
+            if key.starts_with("net.") {
+                c["knobs"][key] = json!(0);
+            }
+            if try_plan(&c, budget) {
+                plan = c;
+            }
+        }
+    }
+    // 2. drop whole steps, then connections, then requests (repeat until no progress)
+    loop {
+        let mut progress = false;
+        let nsteps = plan["steps"].as_array().map(|a| a.len()).unwrap_or(0);
+        for i in (0..nsteps).rev() {
+            let mut c = plan.clone();
+            c["steps"].as_array_mut().unwrap().remove(i);
+            if try_plan(&c, budget) {
+                plan = c;
+                progress = true;
+            }
+        }
+        let nsteps = plan["steps"].as_array().map(|a| a.len()).unwrap_or(0);
+        for i in 0..nsteps {
+            for list in ["conns", "ops", "events", "files"] {
+                let n = plan["steps"][i][list].as_array().map(|a| a.len()).unwrap_or(0);
+                for j in (0..n).rev() {
+                    if plan["steps"][i][list].as_array().map(|a| a.len()).unwrap_or(0) <= 1 {
+                        break;
+                    }
+                    let mut c = plan.clone();
+                    c["steps"][i][list].as_array_mut().unwrap().remove(j);
+                    if try_plan(&c, budget) {
+                        plan = c;
+                        progress = true;
+                    }
+                }
+                let n = plan["steps"][i][list].as_array().map(|a| a.len()).unwrap_or(0);
+                for j in 0..n {
+                    let nr = plan["steps"][i][list][j]["reqs"].as_array().map(|a| a.len()).unwrap_or(0);
+                    for k in (0..nr).rev() {
+                        if plan["steps"][i][list][j]["reqs"].as_array().map(|a| a.len()).unwrap_or(0) <= 1 {
+                            break;
+                        }
+                        let mut c = plan.clone();
+                        c["steps"][i][list][j]["reqs"].as_array_mut().unwrap().remove(k);
+                        if try_plan(&c, budget) {
+                            plan = c;
+                            progress = true;
+                        }
+                    }
+                }
+            }
+        }
+        if !progress || *budget == 0 {
+            break;
+        }
+    }
+    plan
+}
+
+fn write_replay(prop: &str, scenario: &str, bin: &str, seed: u64, tier: &str, res: &Value, v: &Value, minimised: bool) -> String {
+    let _ = std::fs::create_dir_all("/verif/replays");
+    let path = format!("/verif/replays/{}-{}.json", prop, seed);
+    let doc = json!({
+        "property": prop, "violation_class": v["class"], "detail": v["detail"], "seed": seed, "scenario": scenario, "bin": bin, "tier": tier,
+        "event_seq": v["seq"], "schedule_digest": res["sched_digest"], "event_digest": res["digest"], "minimised": minimised,
+        "plan": res["plan"], "event_log_tail": res["tail"],
+        "replay_cmd": format!("cd /verif && ./bin/check replay {}", path),
+    });
+    let _ = std::fs::write(&path, serde_json::to_vec_pretty(&doc).unwrap());
+    path
+}
+
+fn check_main(args: &[String]) {
+    let prop = args[2].clone();
+    let tier = arg_val(args, "--tier").or_else(|| std::env::var("VERIF_TIER").ok()).unwrap_or_else(|| "quick".into());
+    let spec = table::spec(&prop);
+    if spec.scenarios.is_empty() {
+        harness_error(&format!("no check registered for {}", prop));
+    }
+    let runs: u64 = arg_val(args, "--runs").and_then(|v| v.parse().ok()).unwrap_or(if tier == "thorough" { spec.thorough_runs } else { spec.quick_runs });
+    let jobs: u64 = arg_val(args, "--jobs").or_else(|| std::env::var("VERIF_JOBS").ok()).and_then(|v| v.parse().ok()).unwrap_or(16);
+    let base_seed: u64 = std::env::var("VERIF_SEED").ok().and_then(|v| v.parse().ok()).unwrap_or(DEFAULT_SEED);
+    println!("check {} tier={} runs={} jobs={} VERIF_SEED={}", prop, tier, runs, jobs, base_seed);
+    let batch = run_batch(&prop, &tier, runs, jobs, base_seed, 3, false);
+
+    // aggregate
+    let mut harness_errors = Vec::new();
+    let mut evaluations = 0u64;
+    let mut nontrivial: BTreeSet<String> = BTreeSet::new();
+    let mut counters: BTreeMap<String, u64> = BTreeMap::new();
+    let mut stats: BTreeMap<String, i64> = BTreeMap::new();
+    let mut sim_ms_total = 0u64;
+    let mut samples: Vec<Value> = Vec::new();
+    let mut target_viol: Vec<(Value, Value)> = Vec::new(); // (run, violation)
+    let mut other_viol: BTreeMap<String, u64> = BTreeMap::new();
+    let mut known_hits: BTreeMap<String, u64> = BTreeMap::new();
+    let known = known_findings();
+    let mut per_scenario: BTreeMap<String, u64> = BTreeMap::new();
+    for r in batch.results.iter() {
+        if let Some(e) = r.get("harness_error") {
+            harness_errors.push(format!("run {} seed {}: {}", r["i"], r["seed"], e));
+            continue;
+        }
+        evaluations += 1;
+        *per_scenario.entry(r["scenario"].as_str().unwrap_or("").to_string()).or_insert(0) += 1;
+        sim_ms_total += r["sim_ms"].as_u64().unwrap_or(0);
+        if let Some(c) = r["counters"].as_object() {
+            for (k, v) in c {
+                *counters.entry(k.clone()).or_insert(0) += v.as_u64().unwrap_or(0);
+            }
+        }
+        if let Some(c) = r["stats"].as_object() {
+            for (k, v) in c {
+                *stats.entry(k.clone()).or_insert(0) += v.as_i64().unwrap_or(0);
+            }
+        }
+        let prog = &r["progress"];
+        let made_progress = prog.as_object().map(|o| o.values().any(|v| v.as_u64().unwrap_or(0) > 0)).unwrap_or(false);
+        if made_progress {
+            nontrivial.insert(format!("{}:{}", r["scenario"].as_str().unwrap_or(""), r["sched_digest"].as_str().unwrap_or("")));
+        }
+        if samples.len() < 3 && r.get("plan").is_some() && r["verdict"] == "ok" {
+            samples.push(json!({"seed": r["seed"], "scenario": r["scenario"], "workload": summarise_plan(&r["plan"]), "knobs": r["plan"]["knobs"], "progress": r["progress"], "sample_request": r["samples"].get(0), "trace_excerpt": r["tail"].as_array().map(|t| t.iter().rev().take(12).rev().cloned().collect::<Vec<_>>())}));
+        }
+        if let Some(n) = r["notes"].as_array() {
+            for x in n {
+                if x.as_str().map(|s| s.contains("HARNESS-PANIC")).unwrap_or(false) {
+                    harness_errors.push(format!("run {} seed {}: {}", r["i"], r["seed"], x));
+                }
+            }
+        }
+        if let Some(vs) = r["violations"].as_array() {
+            for v in vs {
+                if v["property"] == prop.as_str() {
+                    if let Some(k) = known.iter().find(|k| matches_known(k, v)) {
+                        *known_hits.entry(k["id"].as_str().unwrap_or("?").to_string()).or_insert(0) += 1;
+                    } else {
+                        target_viol.push((r.clone(), v.clone()));
+                    }
+                } else {
+                    *other_viol.entry(format!("{} {}", v["property"].as_str().unwrap_or(""), v["class"].as_str().unwrap_or(""))).or_insert(0) += 1;
+                }
+            }
+        }
+    }
+    if !harness_errors.is_empty() {
+        for e in harness_errors.iter().take(10) {
+            println!("HARNESS-ERROR {}", e);
+        }
+        if evaluations == 0 || harness_errors.len() as u64 * 20 > runs {
+            std::process::exit(2);
+        }
+    }
+    for (k, n) in known_hits.iter() {
+        let kf = known.iter().find(|x| x["id"].as_str() == Some(k)).unwrap();
+        println!("KNOWN-FINDING: property={} {} (hit in {} runs)", prop, kf["what"].as_str().unwrap_or(""), n);
+    }
+    for (k, n) in other_viol.iter() {
+        println!("note: violation of another property seen while exploring ({}x): {} -- it is reported by that property's own check", n, k);
+    }
+
+    let mut exit_code = 0;
+    let mut replay_paths = Vec::new();
+    if !target_viol.is_empty() {
+        // distinct classes, first occurrence each; minimise in a namespace of our own
+        let mut seen = BTreeSet::new();
+        if let Err(e) = ns::enter() {
+            harness_error(&format!("namespace: {}", e));
+        }
+        disable_aslr();
+        for (r, v) in target_viol.iter() {
+            let class = v["class"].as_str().unwrap_or("").to_string();
+            if !seen.insert(class.clone()) || seen.len() > 3 {
+                continue;
+            }
+            let seed = r["seed"].as_u64().unwrap_or(0);
+            let scen = r["scenario"].as_str().unwrap_or("").to_string();
+            let bin = table::bin_for(&scen);
+            let full: Value = r["full_path"].as_str().and_then(|p| std::fs::read(p).ok()).and_then(|d| serde_json::from_slice(&d).ok()).unwrap_or_else(|| r.clone());
+            let mut budget: u32 = std::env::var("VERIF_MIN_BUDGET").ok().and_then(|v| v.parse().ok()).unwrap_or(if tier == "thorough" { 200 } else { 60 });
+            let mut best = full.clone();
+            let mut minimised = false;
+            if full.get("plan").map(|p| p.is_object()).unwrap_or(false) && budget > 0 {
+                let minimal = minimise(bin, &scen, seed, &tier, full["plan"].clone(), &prop, &class, &mut budget);
+                // replay the minimised plan once more in a fresh process; it must fail the same way
+                if let Ok(rr) = run_child(bin, &scen, seed, &tier, Some(&minimal), &[]) {
+                    if has_violation(&rr, &prop, &class) {
+                        best = rr;
+                        minimised = true;
+                    }
+                }
+            }
+            let vv = best["violations"].as_array().and_then(|a| a.iter().find(|x| x["property"] == prop.as_str() && x["class"] == class.as_str()).cloned()).unwrap_or(v.clone());
+            let path = write_replay(&prop, &scen, bin, seed, &tier, &best, &vv, minimised);
+            println!("violation: {} | {}", class, vv["detail"].as_str().unwrap_or(""));
+            println!("VIOLATION property={} replay={}", prop, path);
+            replay_paths.push(path);
+        }
+        exit_code = 1;
+    }
+    let _ = std::fs::remove_dir_all("/verif/replays/tmp");
+
+    // evidence
+    let faults: BTreeMap<String, u64> = counters.iter().filter(|(k, _)| k.starts_with("fault.")).map(|(k, v)| (k.clone(), *v)).collect();
+    let probes: BTreeMap<String, i64> = stats.clone();
+    let ev = json!({
+        "property_id": prop,
+        "tier": tier,
+        "seed": base_seed,
+        "level": spec.level,
+        "coverage": {
+            "evaluations": evaluations,
+            "distinct_nontrivial": nontrivial.len(),
+            "rule": spec.rule,
+            "samples": samples,
+            "runs_per_scenario": per_scenario,
+            "runs_per_hour": if batch.wall_s > 0.0 { (evaluations as f64 / batch.wall_s * 3600.0) as u64 } else { 0 },
+            "seeds_per_hour": if batch.wall_s > 0.0 { (evaluations as f64 / batch.wall_s * 3600.0) as u64 } else { 0 },
+            "simulated_time_s": sim_ms_total / 1000,
+            "fault_kinds_fired": faults,
+            "probes": probes,
+            "scheduler": {"task_polls": counters.get("sched.polls"), "injected_delays": counters.get("sched.delays"), "injected_hops": counters.get("sched.hops"), "victim_delays": counters.get("sched.victim_delays")},
+            "network": {"fragments": counters.get("net.fragments"), "short_writes": counters.get("net.short_writes"), "short_reads": counters.get("net.short_reads"), "spurious_pending": counters.get("net.spurious_pending")},
+            "disk_ops_traced": counters.get("disk.ops"),
+            "known_finding_hits": known_hits,
+            "other_property_violations_seen": other_viol,
+            "components": table::components(&prop),
+            "exhaustive": spec.exhaustive,
+        },
+        "assumptions": table::assumptions(&prop),
+        "wall_s": batch.wall_s,
+        "violations": target_viol.len(),
+        "replays": replay_paths,
+    });
+    let _ = std::fs::create_dir_all("/verif/evidence");
+    if let Err(e) = std::fs::write(format!("/verif/evidence/{}.json", prop), serde_json::to_vec_pretty(&ev).unwrap()) {
+        harness_error(&format!("cannot write evidence: {}", e));
+    }
+    println!(
+        "{}: {} runs, {} distinct non-trivial schedules, {:.0} simulated s, {:.1} s wall, {} runs/h, violations={} known={} -> exit {}",
+        prop,
+        evaluations,
+        nontrivial.len(),
+        sim_ms_total as f64 / 1000.0,
+        batch.wall_s,
+        if batch.wall_s > 0.0 { (evaluations as f64 / batch.wall_s * 3600.0) as u64 } else { 0 },
+        target_viol.len(),
+        known_hits.values().sum::<u64>(),
+        exit_code
+    );
+    std::process::exit(exit_code);
+}
+
+fn summarise_plan(plan: &Value) -> Value {
+    let mut out = Vec::new();
+    if let Some(steps) = plan["steps"].as_array() {
+        for s in steps.iter().take(14) {
+            match s["t"].as_str().unwrap_or("") {
+                "doc" => {
+                    let modes: Vec<String> = ["imds", "wireserver", "hostga"].iter().map(|e| format!("{}={}", e, s["doc"]["authorizationRules"][e]["mode"].as_str().unwrap_or("-"))).collect();
+                    out.push(json!({"doc": {"version": s["doc"]["version"], "state": s["doc"].get("secureChannelState"), "enabled": s["doc"].get("secureChannelEnabled"), "modes": modes}}))
+                }
+                "clients" => {
+                    let cl: Vec<String> = s["conns"].as_array().map(|a| a.iter().take(6).map(|c| format!("proc{}->{} x{}{}", c["proc"], c["dst"].as_str().unwrap_or(""), c["reqs"].as_array().map(|r| r.len()).unwrap_or(0), if c["pipeline"] == true { " pipelined" } else { "" })).collect()).unwrap_or_default();
+                    out.push(json!({"clients": cl}))
+                }
+                _ => {
+                    let mut c = s.clone();
+                    if let Some(o) = c.as_object_mut() {
+                        for (_, v) in o.iter_mut() {
+                            if v.to_string().len() > 200 {
+                                *v = json!(format!("{}...", v.to_string().chars().take(200).collect::<String>()));
+                            }
+                        }
+                    }
+                    out.push(c)
+                }
+            }
+        }
+    }
+    json!(out)
+}
+
+fn replay_main(args: &[String]) {
+    let path = &args[2];
+    let doc: Value = match std::fs::read(path).ok().and_then(|d| serde_json::from_slice(&d).ok()) {
+        Some(d) => d,
+        None => harness_error(&format!("cannot read replay file {}", path)),
+    };
+    if let Err(e) = ns::enter() {
+        harness_error(&format!("namespace: {}", e));
+    }
+    disable_aslr();
+    let prop = doc["property"].as_str().unwrap_or("");
+    let class = doc["violation_class"].as_str().unwrap_or("");
+    let scen = doc["scenario"].as_str().unwrap_or("");
+    let bin = doc["bin"].as_str().unwrap_or(AGENT_SIM);
+    let seed = doc["seed"].as_u64().unwrap_or(0);
+    let mut env = Vec::new();
+    if args.iter().any(|a| a == "--events") {
+        env.push(("VERIF_DUMP_EVENTS".to_string(), "1".to_string()));
+    }
+    match run_child(bin, scen, seed, doc["tier"].as_str().unwrap_or("quick"), Some(&doc["plan"]), &env) {
+        Ok(r) => {
+            if args.iter().any(|a| a == "--events") {
+                if let Some(ev) = r["all_events"].as_array() {
+                    for e in ev {
+                        println!("{}", e.as_str().unwrap_or(""));
+                    }
+                }
+            }
+            let hit = r["violations"].as_array().and_then(|a| a.iter().find(|v| v["property"] == prop && v["class"] == class).cloned());
+            match hit {
+                Some(v) => {
+                    let same_seq = v["seq"] == doc["event_seq"];
+                    let same_digest = r["digest"] == doc["event_digest"];
+                    println!("reproduced: property={} class={:?} event_seq={} (recorded {}) same_seq={} same_event_digest={}", prop, class, v["seq"], doc["event_seq"], same_seq, same_digest);
+                    println!("detail: {}", v["detail"].as_str().unwrap_or(""));
+                    println!("VIOLATION property={} replay={}", prop, path);
+                    std::process::exit(1);
+                }
+                None => {
+                    println!("not reproduced: verdict={} violations={}", r["verdict"], r["violations"]);
+                    std::process::exit(0);
+                }
+            }
+        }
+        Err(e) => harness_error(&e),
+    }
+}
+
+fn determinism_main(args: &[String]) {
+    let prop = args[2].clone();
+    let runs: u64 = arg_val(args, "--runs").and_then(|v| v.parse().ok()).unwrap_or(200);
+    let base_seed: u64 = std::env::var("VERIF_SEED").ok().and_then(|v| v.parse().ok()).unwrap_or(DEFAULT_SEED);
+    let tier = arg_val(args, "--tier").unwrap_or_else(|| "quick".into());
+    // pass 1: each seed twice in the same worker, 16 workers; pass 2: 3 workers; compare across passes too
+    let a = run_batch(&prop, &tier, runs, 16, base_seed, 0, true);
+    let b = run_batch(&prop, &tier, runs, 3, base_seed, 0, true);
+    let mut bad = 0;
+    let mut map: BTreeMap<u64, Vec<String>> = BTreeMap::new();
+    for r in a.results.iter().chain(b.results.iter()) {
+        if r.get("harness_error").is_some() {
+            println!("HARNESS-ERROR {}", r);
+            bad += 1;
+            continue;
+        }
+        let e = map.entry(r["i"].as_u64().unwrap_or(0)).or_default();
+        if let Some(d) = r["digests"].as_array() {
+            for x in d {
+                e.push(x.as_str().unwrap_or("").to_string());
+            }
+        }
+    }
+    let mut distinct = BTreeSet::new();
+    for (i, ds) in map.iter() {
+        let s: BTreeSet<&String> = ds.iter().collect();
+        if s.len() != 1 || ds.len() != 4 {
+            println!("DIVERGENCE run {} seed {} digests {:?}", i, mix(base_seed, *i), ds);
+            bad += 1;
+        } else {
+            distinct.insert(ds[0].clone());
+        }
+    }
+    println!("determinism {}: {} seeds x 4 executions (2 per worker, 16 and 3 workers), {} distinct event logs, {} divergences, {:.1}+{:.1} s", prop, map.len(), distinct.len(), bad, a.wall_s, b.wall_s);
+    std::process::exit(if bad == 0 { 0 } else { 2 });
+}
 
 fn main() {
     let args: Vec<String> = std::env::args().collect();
     match args.get(1).map(|s| s.as_str()) {
         Some("nsrun") => {
             if let Err(e) = ns::enter() {
-                eprintln!("HARNESS-ERROR namespace: {}", e);
-                std::process::exit(2);
+                harness_error(&format!("namespace: {}", e));
             }
+            disable_aslr();
             ns::wipe();
-            ns::install_config(&serde_json::json!({})).unwrap();
             let st = Command::new(&args[2]).args(&args[3..]).env("PATH", "/nonexistent").status().unwrap();
             std::process::exit(st.code().unwrap_or(2));
         }
+        Some("worker") => worker_main(&args),
+        Some("check") if args.len() >= 3 => check_main(&args),
+        Some("replay") if args.len() >= 3 => replay_main(&args),
+        Some("determinism") if args.len() >= 3 => determinism_main(&args),
         _ => {
-            eprintln!("usage: simctl nsrun <cmd> [args]");
+            eprintln!("usage: simctl check <PROP> [--tier quick|thorough] [--runs N] [--jobs J] | replay <file> [--events] | determinism <PROP> [--runs N] | nsrun <cmd>");
             std::process::exit(2);
         }
     }
